@@ -115,6 +115,30 @@ from .. import corecheck as K
 from .. import proj as P
 from .. import scancheck as S
 
+
+def run_guarded(tool, sub, line, timeout=30, mem=3 << 30):
+    """one input line in a process of its own, bounded in time and in address space: for inputs on which a
+    defective implementation does not terminate.  Returns (output line, None) or (None, what happened)."""
+    import os
+    import resource
+    import subprocess
+
+    def limit():
+        resource.setrlimit(resource.RLIMIT_AS, (mem, mem))
+
+    cmd = [os.path.join(C.TOOLS, tool)] + ([sub] if sub else [])
+    try:
+        p = subprocess.run(cmd, input=line + "\n", stdout=subprocess.PIPE, stderr=subprocess.PIPE, text=True,
+                           timeout=timeout, preexec_fn=limit)
+    except subprocess.TimeoutExpired:
+        return None, "no answer within %d s" % timeout
+    if p.returncode != 0:
+        err = [x for x in p.stderr.split("\n") if x.strip()]
+        return None, "process died (exit %d) within a %d MiB address space: %s" % (p.returncode, mem >> 20, " / ".join(err[:2])[:200])
+    out = p.stdout.split("\n")
+    return (out[0], None) if out and out[0] else (None, "no output")
+
+
 NESTY = [7, 8, 9, "P8", 15, 14, 13, 17, 4, 18, 16, 29, 1, 2, 3, 5, 6, 19, 20, 28, 25, 24, 26]
 
 
@@ -154,7 +178,14 @@ def cut_project(rng, items, max_cuts=3):
             counter[0] += 1
             # an INCLUDE line keeps its meaning only in the directory it was written for
             sub = "" if (rng.random() < 0.6 or any(c.startswith("INCLUDE") for c in run)) else "d%d/" % counter[0]
-            name = "%sf%d.jst" % (sub, counter[0])
+            # the same WRITTEN name is reused in different directories (it must resolve relative to the includer)
+            base = None
+            for cand in ("part.jst", "x.jst", "common.jst", "f%d.jst" % counter[0]):
+                if (dirprefix + sub + cand) not in files:
+                    base = cand
+                    break
+            name = sub + base
+            files[dirprefix + name] = None     # reserve
             files[dirprefix + name] = build(run, depth + 1, dirprefix + sub)
             out[a:b] = ["INCLUDE %s\n" % name]
         return "".join(out)
@@ -204,6 +235,11 @@ def stage_projects(res, pr, tier, seed):
         ([("main.jst", "INCLUDE main.jst\n")], "includerecursion"),
         ([("main.jst", "TYPE @a\n{}\nINCLUDE b.jst\n"), ("b.jst", "INCLUDE main.jst\n")], "includerecursion"),
         ([("main.jst", J + "INCLUDE b.jst\n"), ("b.jst", "INCLUDE c.jst\n"), ("c.jst", "INCLUDE b.jst\n")], "includerecursion"),
+        ([("main.jst", J + "INCLUDE a.jst\n"), ("a.jst", "INCLUDE a.jst\n")], "includerecursion"),
+        ([("main.jst", J + "INCLUDE d/a.jst\n"), ("d/a.jst", "TAG @x\nINCLUDE b.jst\n"), ("d/b.jst", "INCLUDE e/c.jst\n"),
+          ("d/e/c.jst", "INCLUDE c.jst\n")], "includerecursion"),
+        ([("main.jst", J + "INCLUDE a.jst\nINCLUDE a.jst\n"), ("a.jst", "INCLUDE b.jst\nINCLUDE b.jst\n"), ("b.jst", "INCLUDE c.jst\n"),
+          ("c.jst", "INCLUDE a.jst\n")], "includerecursion"),
         ([("main.jst", J + "INCLUDE nope.jst\n")], "includenotexist"),
         ([("main.jst", J + "INCLUDE d\n"), ("d/x.jst", "")], "includeisdir"),
         ([("main.jst", J + "INCLUDE .\n")], "includeisdir"),
@@ -216,12 +252,39 @@ def stage_projects(res, pr, tier, seed):
         ([("main.jst", J + "INCLUDE a\\\\x.jst\n")], "includebadname"),
         ([("main.jst", J + "INCLUDE ./x.jst\n"), ("x.jst", "")], "includebadname"),
         ([("sub/main.jst", J + "INCLUDE ../x.jst\n"), ("x.jst", "TYPE @a\n{}\n")], "includebadname"),
+        # the name may be written in quotes: the same rules apply to what is inside them
+        ([("main.jst", J + 'INCLUDE "../x.jst"\n'), ("x.jst", "")], "includebadname"),
+        ([("main.jst", J + 'INCLUDE "/etc/passwd"\n')], "includebadname"),
+        ([("main.jst", J + 'INCLUDE "a/./x.jst"\n')], "includebadname"),
+        ([("main.jst", J + 'INCLUDE ""\n')], "includebadname|includenoparam"),
+        ([("main.jst", J + 'INCLUDE "nope.jst"\n')], "includenotexist"),
+        ([("main.jst", J + 'INCLUDE "d"\n'), ("d/x.jst", "")], "includeisdir"),
+        ([("main.jst", J + 'INCLUDE "b.jst"\n'), ("b.jst", 'INCLUDE "main.jst"\n')], "includerecursion|jsightininclude"),
     ]
+    # an include cycle that is not cut never ends (and eats the memory of the machine): every project
+    # that contains one first runs alone, in a process bounded in time and address space
+    unbounded = False
+    for pj, want in rej:
+        if "includerecursion" not in want:
+            continue
+        out, why = run_guarded("harness", "fn", P.run_line("stage=scan", pj))
+        res.count(1)
+        if out is None:
+            unbounded = True
+            spec_bad.append((pj, "an include cycle must be rejected as %s; the implementation gave no verdict: %s" % (want, why)))
+            break    # every further cycle costs the time it takes to exhaust the address space
+    if unbounded:
+        return corr_bad, spec_bad
     ri, rm, rmis = K.compare([p for p, _ in rej], "stage=scan")
     res.count(len(rej))
     for (pj, want), a in zip(rej, ri):
         if a[0] != "err" or a[-1] not in want.split("|"):
             spec_bad.append((pj, "must be rejected as %s, got %s" % (want, a[:6])))
+        elif a[-1] == "includerecursion":
+            # include_depth_bounded: the chain is cut before it is longer than the number of file names
+            depth = len([x for x in a[4].split(";") if x])
+            if depth > len(pj):
+                spec_bad.append((pj, "include chain of depth %d in a project of %d files" % (depth, len(pj))))
     for k in rmis:
         corr_bad.append((rej[k][0], ri[k][:6], rm[k][:6]))
     # ---- C: full pipeline on fixtures cut at top-level directive boundaries
